@@ -509,7 +509,7 @@ func TestProp(t *testing.T) {
 			rep.Floor("browser_state_cases_"+p, 70)
 		}
 		for _, b := range browserStates[1:] {
-			rep.Floor("browser_state_"+b, 50)
+			rep.Floor("browser_state_"+b, 30)
 		}
 		// the configuration streams
 		for _, sm := range streams[nOrig:] {
